@@ -120,7 +120,8 @@ def scenarios():
             setattr(Session, v, (lambda vv: lambda self, url, **kw: self._do(vv, url, **kw))(v))
         tr_mod.AuthorizedSession = lambda *a, **k: Session()
         rclient = lab_v1.LabClient(transport=tr_mod.LabRestTransport(credentials=AnonymousCredentials()))
-        for req, want_q in (({"name": "n", "type_": "kinds/k", "spec": {"class_": "classes/c"}, "in_": "x", "max_": 5}, {"name": "n", "in": "x", "max": "5"}),
+        for req, want_q in (({"name": "n", "type_": "kinds/k", "spec": {"class_": "classes/c"}, "in_": "x", "max_": 5, "format_": {"class_": "c9", "type_": "t9", "size": 2}},
+                             {"name": "n", "in": "x", "max": "5"}),
                             ({"type_": "kinds/k", "spec": {"class_": "classes/c"}}, {"in": "", "max": "0"})):
             cases += 1
             del calls[:]
@@ -133,6 +134,12 @@ def scenarios():
             q = {k: str(v) for k, v in params if not k.startswith("$")}
             if not url.endswith("/v1/kinds/k/classes/c:m0") or q != want_q:
                 failures.append({"case": f"rest import_({req}): path / query parameter names", "url": url, "query": q, "want_query": want_q})
+            if "format_" in req:
+                import json as _json
+                body = _json.loads(data) if data else None
+                if body != {"class": "c9", "type": "t9", "size": 2}:
+                    failures.append({"case": "rest import_(): the JSON body carries the original (proto / lowerCamel) field names", "body": body,
+                                     "want": {"class": "c9", "type": "t9", "size": 2}})
         # wire names: proto/JSON field names stay the original
         cases += 1
         j = lab_v1.Req.to_json(lab_v1.Req(type_="t", max_=1, in_="i", spec=lab_v1.Spec(class_="c")))
@@ -182,8 +189,9 @@ def module_collisions():
     for both_in_one in (False, True):
         shared = G.new_file("acme/shared/v1/common.proto", "acme.shared.v1")
         G.add_message(shared, "Label", [G.F("text", 1, T.TYPE_STRING)])
-        common = G.new_file("acme/lab/v1/common.proto", "acme.lab.v1")
-        G.add_message(common, "Token", [G.F("value", 1, T.TYPE_STRING)])
+        common = G.new_file("acme/lab/v1/common.proto", "acme.lab.v1", deps=G.STD_DEPS + ["acme/shared/v1/common.proto"])
+        # (the API's own common.proto uses a type of the other package's common.proto: that module is not "itself")
+        G.add_message(common, "Token", [G.F("value", 1, T.TYPE_STRING), G.F("label", 2, T.TYPE_MESSAGE, type_name=".acme.shared.v1.Label")])
         lib = G.new_file("acme/lab/v1/library.proto", "acme.lab.v1", deps=G.STD_DEPS + ["acme/lab/v1/common.proto", "acme/shared/v1/common.proto"])
         G.add_message(lib, "GetShelfRequest", [G.F("name", 1, T.TYPE_STRING), G.F("token", 2, T.TYPE_MESSAGE, type_name=".acme.lab.v1.Token")] +
                       ([G.F("label", 3, T.TYPE_MESSAGE, type_name=".acme.shared.v1.Label")] if both_in_one else []))
@@ -198,6 +206,13 @@ def module_collisions():
             failures.append({"case": label + ": generation failed", "error": repr(e)[:200]})
             continue
         cases += import_bindings_unique(res, failures, label)
+        import ast as _ast
+        from props.C01_native import undefined_names as _und
+        for f_ in res.file:
+            if f_.name.endswith(".py") and ("/types/" in f_.name or "/services/" in f_.name):
+                und = _und(_ast.parse(f_.content))
+                if und:
+                    failures.append({"case": label + ": names used but bound nowhere in the module", "file": f_.name, "names": und[:5]})
         # the two types are referenced through different qualifiers in the types module
         src = next(f.content for f in res.file if f.name == "acme/lab_v1/types/library.py")
         import re
